@@ -687,6 +687,21 @@ type sseOpts struct {
 	done      bool
 }
 
+// sawDone: does the rendered stream contain a "[DONE]" marker as processStreamLine recognises it
+// (prefix "data: ", the rest "[DONE]" up to white space)? Together with "some line is a chunk" this is
+// what makes a body a completion stream at all.
+func sawDone(lines []Line, o sseOpts) bool {
+	if o.done {
+		return true
+	}
+	for i := range lines {
+		if l := &lines[i]; l.T == "ign" && strings.HasPrefix(l.raw, "data: ") && strings.TrimSpace(strings.TrimPrefix(l.raw, "data: ")) == "[DONE]" {
+			return true
+		}
+	}
+	return false
+}
+
 func renderSSE(e *renderer, lines []Line, o sseOpts) string {
 	var b strings.Builder
 	firstChunk := true
@@ -1188,7 +1203,7 @@ func (e *env) streamCase(class string, lines []Line, comp *completion, withBuffe
 	}
 	impl := map[string]any{"events": first.events, "err": first.err, "panic": first.panic, "timeout": first.timeout,
 		"chunkings": len(ks), "chunk_equal": equal, "content_type": first.ctype}
-	m := map[string]any{"kind": "stream", "class": class, "lines": lines, "impl": impl}
+	m := map[string]any{"kind": "stream", "class": class, "lines": lines, "impl": impl, "saw_done": sawDone(lines, so)}
 	if len(sse) <= 3000 && !(e.thorough && len(sse) > 1200) {
 		m["sse"] = strings.ToValidUTF8(sse, "\uFFFD")
 	}
